@@ -7,7 +7,7 @@ META = {
                  "and wrapping; leaves are abstract canvases yielding row descriptors; all column quantities (leaf widths, pads, trims, overlay offsets, the probed column) are "
                  "symbolic and unbounded, row quantities 1..3 (rows are enumerated by content())",
     },
-    "outside": ["TextCanvas leaves with symbolic text (concrete rows with wide characters and solver-chosen run boundaries, trims and offsets are covered by the textleaf instances)", "zero-width characters in leaves", "content_delta", "pop-up coordinates", "trees deeper than 3"],
+    "outside": ["content_delta beyond the 11 catalogued (new, old) tree pairs over shared leaves", "TextCanvas leaves with symbolic text (concrete rows with wide characters and solver-chosen run boundaries, trims and offsets are covered by the textleaf instances)", "zero-width characters in leaves", "pop-up coordinates", "trees deeper than 3"],
     "stubs": ["canvas.blank_canvas -> abstract blank leaf (the real one materialises b''.rjust(cols))", "ALeafCanvas (abstract leaf whose content() yields (leaf, x0, y, width, attr map) descriptors)"],
     "assumptions": ["operations are applied where they are defined (trims smaller than the canvas, overlay inside the bottom canvas, join widths >= canvas widths)"],
 }
@@ -31,11 +31,28 @@ def instances(tier):
         out.append(Instance("algebra.%s" % name, "h_algebra", {"tree": tree}, timeout=900 if tier == "quick" else 3600))
     for name, tree in TREES_Q[:8]:
         out.append(Instance("final.%s" % name, "h_final", {"tree": tree}, timeout=300))
+    for name, new, old in DELTA_PAIRS:
+        out.append(Instance("delta.%s" % name, "h_delta", {"new": new, "old": old}, timeout=900))
     for ti in range(len(TEXTS)):
         for op in ("padtrim", "overlay", "content"):
             out.append(Instance("textleaf.%s.t%d" % (op, ti), "h_textleaf", {"ti": ti, "op": op, "span": 2 if tier == "quick" else 3}, timeout=900))
     return out
 
+
+# content_delta: (name, new tree, old tree) built over the same leaf canvases, independent symbolic parameters
+DELTA_PAIRS = [
+    ("same_join", ("join", "A", "B"), ("join", "A", "B")),
+    ("join_other_right", ("join", "A", "B"), ("join", "A", "C")),
+    ("join_swapped", ("join", "A", "B"), ("join", "B", "A")),
+    ("combine_other_bottom", ("combine", "A", "B"), ("combine", "A", "C")),
+    ("combine_other_top", ("combine", "A", "B"), ("combine", "C", "B")),
+    ("overlay_moved", ("overlay", "A", "B"), ("overlay", "A", "B")),
+    ("overlay_vs_plain", ("overlay", "A", "B"), ("padlr", "B")),
+    ("padlr_moved", ("padlr", "A"), ("padlr", "A")),
+    ("attr_changed", ("attr", ("join", "A", "B")), ("attr", ("join", "A", "B"))),
+    ("nested", ("combine", ("join", "A", "B"), "C"), ("combine", ("join", "B", "A"), "C")),
+    ("trim_combine", ("trim", ("combine", "A", "B")), ("combine", "A", "B")),
+]
 
 # real TextCanvas leaves: concrete rows with double-width characters, solver-chosen attribute / charset run boundaries, trims, pads and overlay offsets
 TEXTS = ["x\u4e2dyz", "\u4e2d\u4e2d", "a\u4e2d", "\u4e2db", "ab\uff21c", "\u4e2da\u4e2d"]
@@ -79,6 +96,8 @@ def _build(I, tree, ctr, leaves, Leaf):
     from models import grid
 
     if isinstance(tree, str):
+        if tree in leaves and isinstance(leaves[tree], tuple):
+            return leaves[tree]          # shared leaf (content_delta compares canvases by identity)
         cols = I.int("cols_" + tree, 1)
         rows = int(I.int("rows_" + tree, 1, 3))
         lf = Leaf(tree, cols, rows)
@@ -205,6 +224,75 @@ def h_algebra(I, tree):
         # the cursor's cell must still show leaf A's cell under the cursor (not covered by an overlay / trimmed away)
         if cur is not None:
             I.check("cursor_translated", And(cur[0] == rc[0], cur[1] == rc[1]))
+
+
+def _cell_matches(I, alts, name, lx, ly, amap):
+    from models import grid
+
+    conds = []
+    for c, n, rx, ry, chain in alts:
+        if n != name:
+            continue
+        if n is None:
+            conds.append(c)
+        else:
+            same_attr = all(grid.apply_chain(chain, a) == ((amap or {}).get(a, a)) for a in ("A", "B", "C", "x", None))
+            conds.append(And(c, lx == rx, ly == ry, same_attr))
+    return Or(*conds) if conds else False
+
+
+def h_delta(I, new, old):
+    """content_delta(previous canvas): columns reported unchanged show the same cells in both canvases, the rest is the new content."""
+    from urwid import canvas as cv
+    from models import grid
+    from symx import uw
+
+    Leaf = _mk_leafclass()
+    uw._patch(cv, "blank_canvas", Leaf(None, 0, 0))
+    leaves = {}
+    for nm in ("A", "B", "C"):
+        cols = I.int("cols_" + nm, 1)
+        rows = int(I.int("rows_" + nm, 1, 2))
+        leaves[nm] = (Leaf(nm, cols, rows), grid.leaf(nm, cols, rows, None))
+    cn, rn = _build(I, new, [0], leaves, Leaf)
+    co, ro = _build(I, old, [100], leaves, Leaf)
+    cn, co = cv.CompositeCanvas(cn), cv.CompositeCanvas(co)
+    # the screen is redrawn with a delta only when its size did not change
+    I.assume(And(rn.cols == ro.cols, rn.rows == ro.rows))
+    x = I.int("x", 0)
+    I.assume(x < rn.cols)
+    rows = [list(r) for r in cn.content_delta(co)]
+    I.check("delta_rows", len(rows) == rn.rows)
+    nsame = 0
+    for y, row in enumerate(rows):
+        start = 0
+        hit = None
+        for seg in row:
+            w = seg if isinstance(seg, int) or I.is_sym(seg) else seg[3]
+            if bool(x < start + w):
+                hit = seg
+                break
+            start = start + w
+        I.check("delta_row_%d_covers_column" % y, hit is not None)
+        if hit is None:
+            continue
+        if isinstance(hit, int) or I.is_sym(hit):
+            nsame += 1
+            # unchanged: the previous canvas shows exactly the same cell there
+            pairs = []
+            for c1, n1, x1, y1, m1 in rn.cell(x, y):
+                for c2, n2, x2, y2, m2 in ro.cell(x, y):
+                    if n1 != n2:
+                        continue
+                    same_attr = all(grid.apply_chain(m1, a) == grid.apply_chain(m2, a) for a in ("A", "B", "C", "x", None))
+                    if not same_attr:
+                        continue
+                    pairs.append(And(c1, c2) if n1 is None else And(c1, c2, x1 == x2, y1 == y2))
+            I.check("unchanged_cell_%d_equal_in_both" % y, Or(*pairs) if pairs else False)
+        else:
+            name, x0, ly, _w, amap = hit
+            I.check("changed_cell_%d_is_new_content" % y, _cell_matches(I, rn.cell(x, y), name, x0 + (x - start), ly, amap))
+    I.note("unchanged_cells_on_path", nsame)
 
 
 def _snap(c):
